@@ -249,6 +249,131 @@ def ustep (F : Bytes) (u : Ul) : UOp → Ul
 
 def urun (F : Bytes) (u : Ul) (ops : List UOp) : Ul := ops.foldl (ustep F) u
 
+/-! ## Retry control plane of a downloader / uploader pair
+
+The messages that start, restart and give up attempts (transfer/manager.py: `manage_transfers`, `_queue_remotely`,
+`_on_peer_transfer_queue`, `_initialize_upload`, `_on_peer_transfer_request`, `_initialize_download`,
+`_on_peer_upload_failed`, the outcomes of `_download_file` / `_upload_file`) — the data plane of one attempt is the
+model above and appears here only through its outcome. Both peer-message directions are FIFO (one `P` connection
+each way), the file connection is separate: its events (`dLearn`, `uLearn`, `uEof`) interleave freely with the
+messages. Tickets are not modelled: a stale reply is accepted where the code would drop it (more behaviours, the
+invariant covers them). Faults are connection RESETS, seen by the two ends in either order, any time apart; a
+downloader that gives up by its own read time-out closes the connection in an orderly way — that path is NOT in the
+alphabet (see the remark at `C04_pair_no_requeue_lost`). -/
+namespace Ctl
+
+/-- the download as the control plane sees it; `user` = PAUSED / ABORTED / FAILED with a reason: the user's turn -/
+inductive D
+  | queued | initializing | downloading | incomplete | complete | user
+deriving DecidableEq, Repr
+
+/-- the upload; `connecting` = reply received, file connection being made; `refused` = FAILED with the reason the
+downloader gave (e.g. "Complete") -/
+inductive U
+  | none | queued | initializing | connecting | uploading | eofWait | failed | refused | complete
+deriving DecidableEq, Repr
+
+inductive ToU | ptq | replyOk | replyNo      -- PeerTransferQueue, PeerTransferReply(allowed / not)
+deriving DecidableEq, Repr
+inductive ToD | ptr | puf                    -- PeerTransferRequest, PeerUploadFailed
+deriving DecidableEq, Repr
+
+structure S where
+  d : D
+  rq : Bool            -- `download.remotely_queued`
+  u : U
+  toU : List ToU       -- in flight, oldest first
+  toD : List ToD
+deriving DecidableEq, Repr
+
+def S.init : S := { d := .queued, rq := false, u := .none, toU := [], toD := [] }
+
+inductive Op
+  | dCycle       -- downloader's management cycle: QUEUED / INCOMPLETE and not remotely queued → PeerTransferQueue
+  | uRecv        -- the uploader handles the oldest message in flight to it
+  | uCycle       -- uploader's management cycle: a QUEUED upload is initialized → PeerTransferRequest
+  | dRecv        -- the downloader handles the oldest message in flight to it
+  | fUp          -- file connection made, ticket and offset exchanged: DOWNLOADING / UPLOADING
+  | estFailD     -- the downloader waited 60 s for the file connection / could not send the offset → QUEUED
+  | estFailU     -- no reply in time / cannot connect / no offset → the upload goes back to QUEUED
+  | uWroteAll    -- `send_file` returned: the uploader waits for the downloader's close
+  | dDone        -- the downloader has everything: closes the connection, COMPLETE
+  | uEof         -- the uploader sees that orderly close
+  | dLearn       -- FAULT: the downloader's end of the file connection reports the reset → INCOMPLETE
+  | uLearn       -- FAULT: the uploader's end reports it (sending, or — FIXED — waiting for the close) → FAILED + PeerUploadFailed
+  | dUser        -- pause() / abort()
+  | dQueue       -- queue() by the user
+deriving DecidableEq, Repr
+
+def retryable (d : D) : Bool := d = .queued || d = .incomplete
+
+def step (s : S) : Op → S
+  | .dCycle => if retryable s.d && !s.rq then { s with rq := true, toU := s.toU ++ [.ptq] } else s
+  | .uRecv =>
+    match s.toU with
+    | [] => s
+    | .ptq :: r =>
+      -- `_on_peer_transfer_queue`: new / FAILED / COMPLETE → QUEUED; a transfer in the queue or being processed: no answer
+      if s.u = .none ∨ s.u = .failed ∨ s.u = .refused ∨ s.u = .complete then { s with toU := r, u := .queued }
+      else { s with toU := r }
+    | .replyOk :: r => if s.u = .initializing then { s with toU := r, u := .connecting } else { s with toU := r }
+    | .replyNo :: r => if s.u = .initializing then { s with toU := r, u := .refused } else { s with toU := r }
+  | .uCycle => if s.u = .queued then { s with u := .initializing, toD := s.toD ++ [.ptr] } else s
+  | .dRecv =>
+    match s.toD with
+    | [] => s
+    | .ptr :: r =>
+      -- `_on_peer_transfer_request`: QUEUED / INCOMPLETE go on; COMPLETE, PAUSED, ABORTED refuse; processing: no answer
+      if retryable s.d then { s with toD := r, d := .initializing, toU := s.toU ++ [.replyOk] }
+      else if s.d = .complete ∨ s.d = .user then { s with toD := r, toU := s.toU ++ [.replyNo] }
+      else { s with toD := r }
+    | .puf :: r => { s with toD := r, rq := false }       -- `_on_peer_upload_failed`
+  | .fUp =>
+    -- `start_transferring` → `reset_queue_vars`: remotely_queued = False
+    if s.d = .initializing ∧ s.u = .connecting then { s with d := .downloading, rq := false, u := .uploading } else s
+  | .estFailD => if s.d = .initializing then { s with d := .queued, rq := false } else s
+  | .estFailU => if s.u = .initializing ∨ s.u = .connecting then { s with u := .queued } else s
+  | .uWroteAll => if s.u = .uploading then { s with u := .eofWait } else s
+  | .dDone => if s.d = .downloading ∧ s.u = .eofWait then { s with d := .complete } else s
+  | .uEof => if s.u = .eofWait ∧ s.d = .complete then { s with u := .complete } else s
+  | .dLearn => if s.d = .downloading then { s with d := .incomplete } else s
+  | .uLearn =>
+    if s.u = .uploading ∨ s.u = .eofWait then { s with u := .failed, toD := s.toD ++ [.puf] } else s
+  | .dUser => if s.d = .complete then s else { s with d := .user }
+  | .dQueue => if s.d = .user ∨ s.d = .incomplete then { s with d := .queued, rq := false } else s
+
+def run (s : S) (ops : List Op) : S := ops.foldl step s
+
+/-- the uploader holds the request (it will send a PeerTransferRequest by itself, or is serving one) -/
+def uHolds (u : U) : Bool :=
+  u = .queued || u = .initializing || u = .connecting || u = .uploading || u = .eofWait
+
+/-- … or will hold it once the messages in flight to it have been handled, whatever happens in between: a request
+makes it hold, a refusal that is still on its way may take the upload out of the queue again -/
+def settleU (holds : Bool) : List ToU → Bool
+  | [] => holds
+  | .ptq :: r => settleU true r
+  | .replyNo :: r => settleU false r
+  | .replyOk :: r => settleU holds r
+
+/-- **no re-queue request is lost**: a download that waits for the uploader (believes it is queued remotely) is
+right — the uploader holds the request or will when the messages in flight have arrived, or the message that ends
+the belief (`PeerUploadFailed`) is in flight -/
+def invB (s : S) : Bool :=
+  (!(retryable s.d && s.rq) || settleU (uHolds s.u) s.toU || s.toD.contains .puf) &&
+  (!(s.d = .downloading) || !s.rq)
+
+/-- nothing in flight, no attempt under way: only the management cycles can act -/
+def quiescent (s : S) : Bool :=
+  s.toU.isEmpty && s.toD.isEmpty && !(s.d = .initializing) && !(s.d = .downloading) &&
+  !(s.u = .initializing) && !(s.u = .connecting) && !(s.u = .uploading) && !(s.u = .eofWait)
+
+/-- one fault-free round: the cycles run, every message is delivered, the attempt is made -/
+def round : List Op :=
+  [.dCycle, .uRecv, .uCycle, .dRecv, .uRecv, .fUp, .uWroteAll, .dDone, .uEof]
+
+end Ctl
+
 /-! ## Executable helpers for the driver -/
 
 def DState.name : DState → String
